@@ -37,7 +37,7 @@ def build_workspace(repo, wd, cfg):
     members = cfg.get('members', ['utils'])
     for m in members:
         shutil.copytree(os.path.join(repo, m), os.path.join(ws, m),
-                        ignore=shutil.ignore_patterns('target', 'benches', 'tests', '*.zkey', '*.arkzkey'))
+                        ignore=shutil.ignore_patterns('target', 'benches', 'tests', '*.arkzkey'))
         # benches are declared in Cargo.toml: strip [[bench]] sections so cargo does not look for them
         ct = os.path.join(ws, m, 'Cargo.toml')
         s = open(ct).read()
@@ -87,7 +87,7 @@ CHECK_RE = re.compile(r'Check \d+: (.+)\n\s+- Status: (\w+)\n\s+- Description: "
 def parse_harness_output(out):
     checks = []
     for m in CHECK_RE.finditer(out):
-        checks.append({'id': m.group(1), 'status': m.group(2), 'description': m.group(3), 'location': m.group(4)})
+        checks.append({'id': m.group(1), 'status': m.group(2), 'description': m.group(3).strip('"'), 'location': m.group(4)})
     m = RESULT_RE.search(out)
     verdict = m.group(1) if m else None
     return verdict, checks
@@ -161,14 +161,16 @@ def run_unit(repo, unit, cfg, wd, tier='quick', prop=None):
         named = [c for c in r['checks'] if '/' in c['description'] and not c['description'].startswith('/')]
         user_failed = [c for c in named if c['status'] == 'FAILURE' and re.match(r'^[A-Za-z0-9_]+/[A-Za-z0-9_.\-]+$', c['description'])]
         internal_failed = [c for c in r['checks'] if c['status'] in ('FAILURE', 'UNDETERMINED', 'UNREACHABLE' + '\0') and c not in user_failed]
+        unsupported = [c for c in internal_failed if c['status'] == 'FAILURE' and ('unsupported_construct' in c['id'] or 'not currently supported' in c['description']
+                       or 'is not supported' in c['description'] or 'Unknown file' in c['location'])]
         panics = [c for c in internal_failed if c['status'] == 'FAILURE' and ('unwinding assertion' not in c['description'])
-                  and not c['id'].startswith('unwind')]
+                  and not c['id'].startswith('unwind') and c not in unsupported]
         unwind_fail = [c for c in internal_failed if 'unwinding assertion' in c['description'] and c['status'] == 'FAILURE']
         res['obligations'] += max(1, len([c for c in r['checks'] if c['status'] in ('SUCCESS', 'FAILURE')]))
         if r['verdict'] == 'SUCCESSFUL':
             hinfo['status'] = 'SUCCESSFUL'
             res['discharged'] += len([c for c in r['checks'] if c['status'] == 'SUCCESS']) or 1
-        elif r['verdict'] == 'FAILED' and (user_failed or panics) and not unwind_fail:
+        elif r['verdict'] == 'FAILED' and (user_failed or panics) and not unwind_fail and not unsupported:
             hinfo['status'] = 'FAILED'
             res['discharged'] += len([c for c in r['checks'] if c['status'] == 'SUCCESS'])
             seen = set()
@@ -194,7 +196,7 @@ def run_unit(repo, unit, cfg, wd, tier='quick', prop=None):
         else:
             hinfo['status'] = 'UNDECIDED'
             res['undecided'].append({'message': 'harness %s: %s' % (h['name'], 'timeout' if r['timed_out'] else
-                                     ('unwinding assertion failed (bound too small)' if unwind_fail else 'no verdict / tool error')),
+                                     ('unwinding assertion failed (bound too small)' if unwind_fail else ('construct not supported by Kani reached' if unsupported else 'no verdict / tool error'))),
                                      'detail': r['out'][-2500:]})
         if not h.get('complete'):
             res['bounded'].append({'harness': '%s/%s' % (unit, h['name']), 'bound': h.get('bound', '?'), 'status': hinfo['status'],
